@@ -38,17 +38,18 @@ pub fn sites(_tier: Tier) -> Vec<Site> {
     let mut sites = vec![];
     {
         let (tfs, cases, kinds) = (tfs.clone(), cases.clone(), kinds.clone());
-        let n = cases.len() as u64;
+        let n = cases.len() as u64 * 2;
         sites.push(Site::new("encode-width", n,
             "every text-bearing field of every kind x string generator S(N): lengths 0..=2N of ASCII, 1-byte-per-char page text, marker-per-char text, double-byte text, mixed text with every cut phase, embedded NUL",
             move |i, acc| {
-                let (ti, fam, s) = &cases[i as usize];
+                let (ti, fam, s) = &cases[(i / 2) as usize];
                 let t = &tfs[*ti];
                 acc.eval();
-                let label = format!("{}.{} = {fam}", t.kind, t.field);
+                let uncompressed = i % 2 == 1;
+                let label = format!("{}.{} = {fam}{}", t.kind, t.field, if uncompressed { " [uncompressed]" } else { "" });
                 let replay = json!({"site": "encode-width", "index": i, "case": label});
                 let p = (t.make)(s);
-                let codec = Codec::new(Mode::Compressed);
+                let codec = Codec::new(if uncompressed { Mode::Uncompressed } else { Mode::Compressed });
                 let frame = match guard(|| codec.encode(&p)) {
                     Ok(Ok(f)) => f,
                     _ => { acc.class("encoder-refused (C03's business)"); return; },
